@@ -256,7 +256,7 @@ Definition describe (context : ctx) (srcs : list nat) : string :=
   ++ " sources=" ++ show (sL sNat srcs).
 
 (* ---------- one case ---------- *)
-Definition subst_case (context : ctx) (re : list (binding * ident)) (lc : N) (r : sexp) : verdict :=
+Definition subst_case (sem : bool) (context : ctx) (re : list (binding * ident)) (lc : N) (r : sexp) : verdict :=
   let exit := ("k", 0%N) in
   let m := code_statement B [] (Substitute re (Call exit [])) context lc in
   let s_codes (cs : list (sb_Code SB)) := L (map (sb_show SB) cs) in
@@ -276,7 +276,7 @@ Definition subst_case (context : ctx) (re : list (binding * ident)) (lc : N) (r 
   | _ =>
       match sb_read SB r, sources context re with
       | Some cs, Some srcs =>
-          match check_all context re srcs cs (show_ident exit ++ "_") with
+          match (if sem then check_all context re srcs cs (show_ident exit ++ "_") else Ok None) with
           | Ok (Some why) => VViol (why ++ describe context srcs)
           | Err e => VSkip ("state builder: " ++ e)
           | Ok None =>
